@@ -158,13 +158,16 @@ def join_op(sym, op, NL, NR, dom, compound=False, ragged=False, spelling='key', 
     verify_join(out, op, L, R, lh, rh, lkeys, rkeys, compound, prefix, missing, order='key')
 
 
-def antijoin_op(sym, NL, NR, dom, compound=False, spelling='key', bs=None):
+def antijoin_op(sym, NL, NR, dom, compound=False, spelling='key', bs=None, rswap=False):
     L, R, lh, rh, kw = _build(sym, NL, NR, dom, compound, False, spelling, False, None)
     kw.pop('lprefix', None)
+    tR = [rh] + R
+    if rswap:            # same key name at another column position on the right
+        tR = [list(reversed(rh))] + [list(reversed(r)) for r in R]
     lkeys = [_key(r, compound, None) for r in L]
     rkeys = [_key(r, compound, None) for r in R]
     with pickle_stub(), private_tempdir() as td:
-        out = [tuple(r) for r in petl.antijoin([lh] + L, [rh] + R, buffersize=bs, tempdir=td, **kw)]
+        out = [tuple(r) for r in petl.antijoin([lh] + L, tR, buffersize=bs, tempdir=td, **kw)]
     check(len(out) >= 1 and out[0] == tuple(lh), 'header', out[:1])
     exp = [i for i in range(len(L)) if not any(_keys_eq(lkeys[i], rkeys[j], compound) for j in range(len(R)))]
     ltags = dict((r[0], i) for i, r in enumerate(L))
@@ -274,10 +277,11 @@ def jobs(tier):
             add(op, 2, 3, 'O', bs=2)
     for (NL, NR, dom, kw) in ([(2, 2, 'I', {}), (2, 2, 'O', {}), (2, 1, 'M', {}), (1, 2, 'M', {}),
                                (2, 1, 'Od2', dict(compound=True)), (2, 2, 'O', dict(spelling='lrkey')),
-                               (2, 2, 'O', dict(bs=1))] if q else
+                               (2, 2, 'O', dict(bs=1)), (2, 2, 'O', dict(rswap=True)), (2, 1, 'Od2', dict(compound=True, rswap=True))] if q else
                               [(3, 3, 'I', {}), (3, 2, 'O', {}), (2, 3, 'O', {}), (2, 2, 'M', {}),
                                (2, 2, 'Od2', dict(compound=True)), (3, 2, 'O', dict(spelling='lrkey')),
-                               (3, 2, 'O', dict(bs=1)), (2, 3, 'O', dict(spelling='natural'))]):
+                               (3, 2, 'O', dict(bs=1)), (2, 3, 'O', dict(spelling='natural')), (3, 2, 'O', dict(rswap=True)),
+                               (2, 2, 'Od2', dict(compound=True, rswap=True))]):
         p = dict(NL=NL, NR=NR, dom=dom)
         p.update(kw)
         out.append(dict(name='antijoin/%dx%d/%s' % (NL, NR, dom) + ''.join('/%s=%s' % kv for kv in sorted(kw.items())),
